@@ -109,6 +109,8 @@ func checkC20(c *Ctx, r *Report) {
 		for k, w := range map[int64]string{1: "bcdplus", 2: "packed6", 3: "latin1"} {
 			r.Check(kinds[k] == w, fmt.Sprintf("string encoding %d", k), g.Pos(), kinds[k], fmt.Sprintf("encoding %d selects a %q decoder, want %q", k, kinds[k], w))
 		}
+		// the Latin-1 decoder as a value statement: it is the identity on the first c bytes
+		checkLatin1Decoders(c, r)
 		// "ID strings of every length" includes the empty one: with a character count of zero no
 		// decoder may fail, whatever follows in the record (engine E1: every error exit's path
 		// condition is unsatisfiable under c == 0)
@@ -316,6 +318,16 @@ func checkC20(c *Ctx, r *Report) {
 	}
 
 	checkRollingAvgEncoder(c, r)
+
+	// ... and the conversion is applied where the duration goes on the wire: the Get Power
+	// Reading request's period byte is the encoder's result for the request's current Period —
+	// not a value remembered from an earlier serialisation (layout shared with C06)
+	r.Rule("period-byte-on-the-wire", "the Get Power Reading request writes rollingAvgPeriodByte(Period) of the value being serialised (or zero outside enhanced mode) as its second byte", 1)
+	for _, sp := range specsFor(requestSpecs, "GetPowerReadingReq") {
+		sub := sp
+		sub.Want = map[string][]string{"pre[1]": sp.Want["pre[1]"]}
+		compareSpec(c, r, []layerSpec{sub}, "wire", nil)
+	}
 
 	r.Rule("extension-parsers", "unsigned parser = zero-extension, two's-complement parser = sign-extension of the raw byte", 2)
 	if v, g := ir.globalByType("pkg/ipmi", "analogDataFormatParsers", "map["+modPath+"/pkg/ipmi.AnalogDataFormat]"+modPath+"/pkg/ipmi.AnalogDataFormatParser"); g == nil {
